@@ -163,6 +163,11 @@ type livelock struct{}
 
 var errInjected = errors.New("injected reader failure")
 
+// the failure a reader reports is an arbitrary error value: io.Reader's contract reserves
+// io.EOF ITSELF for the end of the stream; an error that merely wraps it, and
+// io.ErrUnexpectedEOF, are failures like any other
+var errKinds = []error{errInjected, fmt.Errorf("connection closed by peer: %w", io.EOF), io.ErrUnexpectedEOF}
+
 type schedReader struct {
 	data     []byte
 	pos      int
@@ -171,6 +176,7 @@ type schedReader struct {
 	failAt   int       // >= 0: the reader fails once pos reaches failAt
 	failData bool      // deliver the last bytes together with the error
 	failOnce bool      // after the error has been returned once, further reads return io.EOF
+	failErr  error     // the error value (nil: errInjected)
 	failed   bool
 	reads    int
 	lastZero bool
@@ -200,6 +206,9 @@ func (r *schedReader) Read(p []byte) (int, error) {
 			copy(p, r.data[r.pos:r.pos+n])
 			r.pos += n
 			r.failed = true
+			if r.failErr != nil {
+				return n, r.failErr
+			}
 			return n, errInjected
 		}
 		copy(p, r.data[r.pos:r.pos+n])
@@ -530,7 +539,7 @@ func Check() *core.Check {
 				},
 				{
 					Name: "reader-failure-at-every-offset",
-					Desc: "the reader fails at byte offset k (the error alone or together with the last bytes; afterwards the same error again or io.EOF), for every k of 3 mixed documents and 2 straddle documents, under full reads and 7-byte reads",
+					Desc: "the reader fails at byte offset k (the error alone or together with the last bytes; afterwards the same error again or io.EOF; the error value is a plain error, an error wrapping io.EOF, or io.ErrUnexpectedEOF), for every k of 3 mixed documents and 2 straddle documents, under full reads and 7-byte reads",
 					N:    int64(len(docs[6].src)+1) + int64(len(docs[4].src)+1) + int64(len(docs[2].src)+1) + int64(len(strad[50].src)+1) + int64(len(strad[400].src)+1),
 					Run: func(t *core.T, i int64) {
 						k := int(i)
@@ -540,8 +549,10 @@ func Check() *core.Check {
 								for _, withData := range []bool{false, true} {
 									for _, once := range []bool{false, true} {
 										for _, u := range []int{0, 7} {
-											compare(t, d, exp, &schedReader{data: d.src, failAt: k, failData: withData, failOnce: once, uniform: u}, fmt.Sprintf("fail at offset %d (with data: %v, then EOF: %v, chunk %d)", k, withData, once, u))
-											t.AddStates(1)
+											for ek, fe := range errKinds {
+												compare(t, d, exp, &schedReader{data: d.src, failAt: k, failData: withData, failOnce: once, uniform: u, failErr: fe}, fmt.Sprintf("fail at offset %d (with data: %v, then EOF: %v, chunk %d, error kind %d: %v)", k, withData, once, u, ek, fe))
+												t.AddStates(1)
+											}
 										}
 									}
 								}
